@@ -294,4 +294,23 @@ theorem nums_fallback_aux (o : GroupOps α) (H : TagHash) (t : Tree) (i : Int) :
     outputPubkey o H none none = .error .missing ∧ outputPubkey o H (some []) none = .error .missing :=
   ⟨rfl, rfl, rfl, rfl, rfl, rfl⟩
 
+/-! ## the public `leaf_hash`: versions outside one byte are refused, never wrapped -/
+
+theorem leafHashPub_spec (H : TagHash) (v : Int) (s : Bytes) :
+    (0 ≤ v ∧ v ≤ 255 → leafHashPub H v s = .ok (leafHash H v.toNat s)) ∧
+    (¬ (0 ≤ v ∧ v ≤ 255) → leafHashPub H v s = .error .version) := by
+  have e : LEAF_VERSION_MAX = 255 := rfl
+  unfold leafHashPub
+  rw [e]
+  constructor
+  · intro h; rw [if_neg (not_not.mpr h)]
+  · intro h; rw [if_pos h]
+
+/-- every version the library itself hands to `leaf_hash` (masked with 0xFE) is in the accepted range -/
+theorem leafHashPub_masked (H : TagHash) (v : Nat) (s : Bytes) :
+    leafHashPub H ((v &&& LEAF_MASK : Nat) : Int) s = .ok (leafHash H (v &&& LEAF_MASK) s) := by
+  have h := mask_le v
+  have := (leafHashPub_spec H ((v &&& LEAF_MASK : Nat) : Int) s).1 ⟨by omega, by omega⟩
+  rw [this, Int.toNat_natCast]
+
 end Btc.Taproot
